@@ -240,7 +240,9 @@ def run_config(check, cfg, tier, idx):
         return out
 
     try:
-        with patch.patched(check.modules, extra=check.patches(cfg), linalg_stubs=check.linalg_stubs):
+        extra_patches = check.patches(cfg)
+        mods = check.modules_for(cfg) if hasattr(check, "modules_for") else check.modules
+        with patch.patched(mods, extra=extra_patches, linalg_stubs=check.linalg_stubs):
             for c, out, abort in eng.explore(harness):
                 P = getattr(c, "_P", None)
                 res["paths"] += 1
